@@ -830,3 +830,92 @@ def rule_every_part_is_written(ctx, rep: Report, rid="Y7"):
             rep.add(rid, "wrap_submodule:the part is written to <initialiser name>.cpp", init_name is not None and path.replace(" ", "") in
                     (f"{init_name}+'.cpp'".replace(" ", ""), f"f'{{{init_name}}}.cpp'".replace(" ", "")),
                     f"written to {path}, initialiser named {init_name} (of {src}): the build lists <stem>.cpp as the output of each additional file", loc)
+
+
+# ------------------------------------------------------------------------------------------------------------------
+# Y8: the build files drive the scripts with the options the scripts declare, and expect the files the library writes
+def _cmake_commands(text: str, script_var: str) -> List[Tuple[int, List[str]]]:
+    """(line, tokens) of every command line in a CMake file that runs ${<script_var>}: the tokens that follow the
+    script up to VERBATIM / WORKING_DIRECTORY / DEPENDS / COMMENT / the closing parenthesis.  Comments are dropped;
+    a quoted argument is one token."""
+    import re
+    out = []
+    clean = "\n".join(l.split("#", 1)[0] if not re.search(r'"[^"]*#', l) else l for l in text.splitlines())
+    for m in re.finditer(r"\$\{" + re.escape(script_var) + r"\}", clean):
+        tail = clean[m.end():]
+        toks = re.findall(r'"[^"]*"|\$\{[^}]*\}|[^\s()]+|[()]', tail)
+        cmd = []
+        for t in toks:
+            if t in (")", "VERBATIM", "WORKING_DIRECTORY", "DEPENDS", "COMMENT", "COMMAND", "OUTPUT"):
+                break
+            cmd.append(t)
+        out.append((clean[:m.start()].count("\n") + 1, cmd))
+    return out
+
+
+def rule_build_files_agree(ctx, rep: Report, rid="Y8"):
+    import re
+    prog = ctx.prog
+    for which, cm_rel, var in (("pybind", "cmake/PybindWrap.cmake", "PYBIND_WRAP_SCRIPT"), ("matlab", "cmake/MatlabWrap.cmake", "MATLAB_WRAP_SCRIPT")):
+        text = ctx.tree.src(cm_rel).text
+        mi, opts, ctor, scope = _script_info(ctx, SCRIPTS[which])
+        cmds = _cmake_commands(text, var)
+        if not cmds:
+            raise AnalysisError(f"{cm_rel}: no command line runs ${{{var}}}")
+        # empty-or-flag variables: set(<V> "--flag") / set(<V> "")
+        flagvars = {m.group(1): m.group(2) for m in re.finditer(r'set\(\s*(\w+)\s+"(--[\w-]+)"\s*\)', text)}
+        for k_, (line, cmd) in enumerate(cmds):
+            flags_seen = []
+            for i, t in enumerate(cmd):
+                mvar = re.fullmatch(r"\$\{(\w+)\}", t)
+                flag = t if t.startswith("--") else (flagvars.get(mvar.group(1)) if mvar else None)
+                if flag is None:
+                    continue
+                flags_seen.append(flag)
+                nxt = cmd[i + 1] if i + 1 < len(cmd) else None
+                nxt_is_flag = nxt is None or nxt.startswith("--") or (re.fullmatch(r"\$\{(\w+)\}", nxt) is not None and re.fullmatch(r"\$\{(\w+)\}", nxt).group(1) in flagvars)
+                has_value = t.startswith("--") and not nxt_is_flag
+                o = opts.get(flag)
+                loc = f"{cm_rel}:{line}"
+                rep.add(rid, f"{which}:{cm_rel}:command #{k_}:{flag}:declared by the script", o is not None,
+                        f"the build runs {SCRIPTS[which]} with {flag}, which the script does not declare (declared: {sorted(opts)}): argparse exits "
+                        f"with an error and nothing is generated", loc)
+                if o is None:
+                    continue
+                act = o["kw"].get("action")
+                is_switch = isinstance(act, ast.Constant) and act.value in ("store_true", "store_false")
+                rep.add(rid, f"{which}:{cm_rel}:command #{k_}:{flag}:{'takes a value' if has_value else 'is a switch'} on both sides", is_switch != has_value,
+                        f"the build passes {flag} {'with' if has_value else 'without'} a value, the script declares it as "
+                        f"{'a switch' if is_switch else 'an option with a value'}: the next argument is swallowed / reported as unrecognised", loc)
+            # every option the script requires is given
+            required = [f for f, o in opts.items() if isinstance(o["kw"].get("required"), ast.Constant) and o["kw"]["required"].value is True]
+            missing = [f for f in required if f not in flags_seen]
+            rep.add(rid, f"{which}:{cm_rel}:command #{k_}:every required option of the script is passed", not missing, f"missing {missing}", f"{cm_rel}:{line}")
+    # names of the generated files
+    ptxt = ctx.tree.src("cmake/PybindWrap.cmake").text
+    m = re.search(r"get_filename_component\(\s*(\w+)\s+\$\{interface_file\}\s+(\w+)\s*\)\s*\n\s*set\(\s*cpp_file\s+\"\$\{(\w+)\}\.cpp\"\s*\)", ptxt)
+    sub = prog.method("PybindWrapper", "wrap_submodule")
+    ci = prog.cls("PybindWrapper")
+    sites = _write_sites(sub, prog, ci)
+    path = unparse(inline_locals(sub, sites[0][1])).replace(" ", "") if sites else ""
+    src = func_params(sub)[1]
+    stem_py = path in (f"Path({src}).stem+'.cpp'", f"f'{{Path({src}).stem}}.cpp'")
+    rep.add(rid, "pybind:the build expects <name without last extension>.cpp for an additional file, wrap_submodule writes Path(source).stem + '.cpp'",
+            m is not None and m.group(2) == "NAME_WLE" and m.group(1) == m.group(3) and stem_py,
+            f"cmake: {m.group(0).split(chr(10))[0].strip() if m else 'pattern not found'}; python writes {path}: NAME_WE would cut `a.b.i` to `a`, "
+            f"Path.stem cuts it to `a.b`", "cmake/PybindWrap.cmake:1")
+    mtxt = ctx.tree.src("cmake/MatlabWrap.cmake").text
+    m2 = re.search(r"set\(\s*generated_cpp_file\s+\"\$\{generated_files_path\}/\$\{(\w+)\}_wrapper\.cpp\"\s*\)", mtxt)
+    mline = next((cmd for _, cmd in _cmake_commands(mtxt, "MATLAB_WRAP_SCRIPT")), [])
+    mod_arg = mline[mline.index("--module_name") + 1] if "--module_name" in mline and mline.index("--module_name") + 1 < len(mline) else None
+    out_arg = mline[mline.index("--out") + 1] if "--out" in mline and mline.index("--out") + 1 < len(mline) else None
+    wn = prog.method("MatlabWrapper", "_wrapper_name")
+    rets = [unparse(r.value).replace(" ", "") for r in ast.walk(wn) if isinstance(r, ast.Return) and r.value is not None]
+    mwc = prog.cls("MatlabWrapper")
+    cpp_names = [unparse(x).replace(" ", "") for f_ in mwc.methods.values() for x in ast.walk(f_)
+                 if isinstance(x, ast.BinOp) and isinstance(x.op, ast.Add) and isinstance(x.right, ast.Constant) and x.right.value == ".cpp"]
+    rep.add(rid, "matlab:the build expects <module>_wrapper.cpp in the output directory, the library writes _wrapper_name() + '.cpp' there",
+            m2 is not None and mod_arg == f"${{{m2.group(1)}}}" and out_arg == "${generated_files_path}" and rets == ["self.module_name+'_wrapper'"]
+            and bool(cpp_names) and all(c == "self._wrapper_name()+'.cpp'" for c in cpp_names),
+            f"cmake: generated_cpp_file = {m2.group(0) if m2 else None}, --module_name {mod_arg}, --out {out_arg}; python: _wrapper_name returns {rets}, "
+            f".cpp names {sorted(set(cpp_names))}", "cmake/MatlabWrap.cmake:1")
